@@ -58,6 +58,9 @@ func (t *Translator) convertToolChoice(toolChoice interface{}) (interface{}, err
 		case toolChoiceAny:
 			// Semantic mapping: Anthropic "any" -> OpenAI "required"
 			return openAIToolChoiceRequired, nil
+		case toolChoiceNone:
+			// {"type":"none"} forbids tool use, exactly like the string form
+			return openAIToolChoiceNone, nil
 		case toolChoiceTool:
 			// Force specific tool selection
 			toolName, ok := choiceMap["name"].(string)
